@@ -73,7 +73,7 @@ class World:
                 self.anomalies.append('Task.wbs of object %d is not the stored owner' % k)
             prio = t.__dict__.get('prio')
             nm = t.name if isinstance(t.name, str) else ''
-            heap.append([t.id if not hid else 2 ** 63 - 1, None if raw is None else self.num[id(raw)],
+            heap.append([plain_id(t.id) if not hid else 2 ** 63 - 1, None if raw is None else self.num[id(raw)],
                          [self.num[id(c)] for c in t.children], [self.num[id(c)] for c in t.predecessors],
                          [self.num[id(c)] for c in t.successors], None if ow is None else self.wid_of(ow),
                          hid, prio, [ord(c) for c in nm], t.estimate])
@@ -159,7 +159,11 @@ def materialise(W, vs, form):
         return tuple(objs)
     if form == 'iter':
         return iter(objs)
+    GIVEN.append(objs)
     return objs
+
+
+GIVEN = []      # list arguments handed to the API by the current call: they stay the caller's (see do_call)
 
 
 def ch_facade(W, o, how):
@@ -251,6 +255,23 @@ def remove_all_call(f, ids, v):
     return f.remove_all(id_in_=ids)
 
 
+def as_id(i, how):
+    """ids are compared with == : 1, 1.0 and True are ONE id.  A tenth of the tasks get their id as a float (or, for 0 and
+    1, as a bool); the snapshot reports the integer it equals."""
+    spelling = how.get('id_as')
+    if spelling == 'float':
+        return float(i)
+    if spelling == 'bool' and i in (0, 1):
+        return bool(i)
+    return i
+
+
+def plain_id(x):
+    if isinstance(x, (bool, float)) and x == int(x):
+        return int(x)
+    return x
+
+
 def execute(W, op, how):
     """performs the call; whatever the implementation raises propagates"""
     k = op[0]
@@ -261,7 +282,7 @@ def execute(W, op, how):
         kw = {}
         if pr is not None:
             kw['prio'] = pr
-        W.reg(Task(i, name=nm, estimate=e, **kw))
+        W.reg(Task(as_id(i, how), name=nm, estimate=e, **kw))
     elif k == 'NewTaskRel':
         _, i, nm, p, ch, su, pr = op
         kw = {'name': nm}
@@ -273,7 +294,9 @@ def execute(W, op, how):
             kw['successors'] = materialise(W, su, how.get('fsu', 'list'))
         if pr or how.get('pass_empty'):
             kw['predecessors'] = materialise(W, pr, how.get('fpr', 'list'))
-        W.reg(Task(i, **kw))
+        if how.get('bad_kw'):
+            kw[how['bad_kw']] = None
+        W.reg(Task(as_id(i, how), **kw))
     elif k == 'NewWbs':
         w = WBS()
         W.wbss.append(w)
@@ -454,6 +477,7 @@ def do_call(W, op, how, ids):
     code, exc, hung = 0, None, False
     signal.signal(signal.SIGALRM, _alarm)
     signal.setitimer(signal.ITIMER_REAL, CALL_LIMIT)
+    del GIVEN[:]
     try:
         execute(W, op, how)
     except CallTimeout:
@@ -464,6 +488,10 @@ def do_call(W, op, how, ids):
         code, exc = exc_code(e), '%s: %s' % (type(e).__name__, str(e)[:120])
     finally:
         signal.setitimer(signal.ITIMER_REAL, 0)
+    # the caller goes on using the lists it passed in (reorders and empties them): no task or WBS may notice
+    for lst in GIVEN:
+        lst.reverse()
+        del lst[:]
     post = W.snapshot()
     signal.setitimer(signal.ITIMER_REAL, CALL_LIMIT)
     try:
@@ -650,7 +678,7 @@ KINDS = [('SetParent', 12), ('SetChildren', 9), ('SetLinks', 8), ('ChAppend', 9)
          ('ChMove', 8), ('ChSort', 4), ('ChReorder', 4), ('ChRemoveAll', 2), ('LnAppend', 5), ('LnRemove', 3),
          ('LnRemoveAll', 2), ('OpFloordiv', 9), ('OpShift', 7), ('LstShift', 5), ('LstSetParent', 2), ('LstSetChildren', 4), ('LstSetLinks', 4),
          ('WbsRemove', 2),
-         ('WbsRemoveAll', 2), ('SetEst', 1), ('SetPrio', 2), ('DeepLink', 5), ('SortNone', 3), ('Promote', 3), ('Diamond', 3), ('DeepUndo', 4), ('StaleList', 4), ('ReleaseReuse', 3), ('AdoptRootRemove', 3)]
+         ('WbsRemoveAll', 3), ('SetEst', 1), ('SetPrio', 2), ('DeepLink', 5), ('SortNone', 3), ('Promote', 3), ('Diamond', 3), ('DeepUndo', 4), ('StaleList', 4), ('ReleaseReuse', 3), ('AdoptRootRemove', 3), ('BulkUndoNeighbour', 3)]
 P_ILLEGAL = 0.43
 P_STALE = 0.21      # share of list calls that ASK for a pooled facade; ~15 % find one
 
@@ -737,7 +765,15 @@ class Gen:
         if e == -1:          # the constructor raises: nothing is created
             self.made_tasks -= 1
             self.used_ids.pop()
-        return ['NewTask', i, rng.choice([None, None, 1, 2, 3, 5]), nm, e], {}
+        return ['NewTask', i, rng.choice([None, None, 1, 2, 3, 5]), nm, e], self.id_spelling(i)
+
+    def id_spelling(self, i):
+        r = random.Random('%s/%s/%s' % (getattr(self, 'seed_text', ''), self.made_tasks, i)).random()    # not from the main stream: older seeds keep their histories
+        if r < 0.07:
+            return {'id_as': 'float'}
+        if r < 0.12 and i in (0, 1):
+            return {'id_as': 'bool'}
+        return {}
 
     def gen_new_rel(self, V, i, nm):
         """Task(id, parent=, children=, successors=, predecessors=); the new object has the next number"""
@@ -779,6 +815,10 @@ class Gen:
                'pass_empty': rng.random() < 0.2}
         if ch is not None:
             ch = decorate(rng, ch) if how['fch'] != 'single' else ch
+        if random.Random('%s/kw/%s/%s' % (getattr(self, 'seed_text', ''), self.made_tasks, i)).random() < 0.12:
+            # a custom attribute (Task(..., **kwargs)) whose name is a read-only property of Task: the constructor raises
+            # AttributeError - after the relations were set.  Nothing may stay attached (judged in graph_common).
+            how['bad_kw'] = ['wbs', 'all_children', 'all_parents', 'all_predecessors'][(self.made_tasks + i) % 4]
         return ['NewTaskRel', i, nm, p, ch, su, pr], how
 
     # ---- mutations ----
@@ -1470,6 +1510,28 @@ class Gen:
         self.queue = [(['NewTask', V.tid(g), None, 'r', None], {}), (['ChAppend', r, n], dict(how, facade=None)), back]
         return first
 
+    def g_BulkUndoNeighbour(self, V):
+        """aims at the undo of a bulk assignment whose SECOND element rewired a neighbour that nothing else names:
+        fresh tasks a, x, n, q, bad with x waiting for [a, n] and bad a child of q; then [a, x, bad].predecessors = [q]
+        (or the mirror image with successors): accepted for a and x - n loses its link with x - and rejected for bad
+        (q is its parent).  Afterwards n and x must be linked as before, on both ends."""
+        rng = self.rng
+        if getattr(self, 'bulkundo_done', 0) >= 2:
+            return None
+        self.bulkundo_done = getattr(self, 'bulkundo_done', 0) + 1
+        how = {'aim': 'bulk-undo-neighbour'}
+        d = rng.random() < 0.5                # True: predecessor lists
+        n0 = V.n
+        a, x, nb, q, bad = n0, n0 + 1, n0 + 2, n0 + 3, n0 + 4
+        ids = [30, 31, 32, 33, 34]
+        order = [a, x, bad] if rng.random() < 0.7 else [x, a, bad]
+        self.queue = [(['NewTask', ids[1], None, 'x', None], {}), (['NewTask', ids[2], None, 'n', None], {}),
+                      (['NewTask', ids[3], None, 'q', None], {}), (['NewTask', ids[4], None, 'z', None], {}),
+                      (['SetLinks', d, x, [a, nb]], dict(how, form='list')),
+                      (['SetParent', bad, q], dict(how, v=None)),
+                      (['LstSetLinks', d, order, [q]], dict(how, src=['raw', order], form=rng.choice(['list', 'single']), v=None))]
+        return ['NewTask', ids[0], None, 'a', None], {}
+
     def g_AdoptRootRemove(self, V):
         """aims at a ROOT task of a WBS that is adopted by another member of the same WBS through a children assignment
         (=, +=, //) and is then taken out again (WBS.remove, list removal, left out of an assignment): afterwards it must
@@ -1603,6 +1665,15 @@ class Gen:
         if not members and rng.random() < 0.8:
             return None
         ids, v = self.ids_arg([V.tid(x) for x in members])
+        nested = [(m, g) for m in members for g in V.sub(m)[1:]]
+        if nested and rng.random() < 0.45:
+            # aimed: the filter matches a task AND one of its own descendants (the descendant leaves with its ancestor;
+            # it must still be reported, and nothing else may be touched)
+            m, g = rng.choice(nested)
+            ids = [V.tid(m), V.tid(g)] if rng.random() < 0.5 else [V.tid(g), V.tid(m)]
+            if rng.random() < 0.3:
+                ids.append(rng.choice([V.tid(x) for x in members]))
+            v = rng.choice([None, None, 'key', 'key+kw'])
         return ['WbsRemoveAll', w, ids], {'v': v}
 
     def g_SetEst(self, V):
@@ -1633,6 +1704,7 @@ def gen_history(seed):
     rng = random.Random('graph-history/%s' % seed)
     W = World()
     G = Gen(rng, W)
+    G.seed_text = str(seed)
     ids = G.ids + [G.unused_id]
     steps = []
     snap = W.snapshot()
@@ -1663,7 +1735,7 @@ def run_ops(items):
             new_facade(W, it[1], it[2])
             continue
         op, how = (it[0], it[1]) if (len(it) == 2 and isinstance(it[1], dict)) else (it, {})
-        ids = sorted(set(t.id for t in W.objs if t.id != taskmod.EMPTY_TASK_ID) | ({op[1]} if op[0] in ('NewTask', 'NewTaskRel') else set()))
+        ids = sorted(set(plain_id(t.id) for t in W.objs if t.id != taskmod.EMPTY_TASK_ID) | ({op[1]} if op[0] in ('NewTask', 'NewTaskRel') else set()))
         steps.append(do_call(W, op, how, ids + [max(ids + [0]) + 1]))
         if steps[-1]['hung']:
             break
